@@ -113,6 +113,22 @@ Proof.
   walk H; inv H; eauto.
 Qed.
 
+Lemma constr_all_In : forall (g : constr -> result unit) l k, constr_all g l = Ok tt -> In k l -> g k = Ok tt.
+Proof.
+  induction l as [| x r IH]; intros k H Hin; [contradiction |]. cbn [constr_all] in H. unfold bind in H.
+  destruct (g x) as [[] | |] eqn:E; try discriminate. destruct Hin as [E2 | Hin]; [subst; exact E | apply IH; auto].
+Qed.
+
+(* a successful generic constructor run passed the class constraints on what it stored *)
+Lemma cg_constraints : forall vr ev w po so rc rp ro fuel c a i kw pre vrf ci S0 d h k,
+  construct_generic vr ev w po so rc rp ro fuel c a i kw pre vrf = Ok (PObject ci S0 d h) ->
+  In k (ccons c) -> eval_constr vr po fuel c S0 k = Ok tt.
+Proof.
+  intros vr ev w po so rc rp ro fuel c a i kw pre vrf ci S0 d h k H Hin. unfold construct_generic in H.
+  walk H; inv H;
+    match goal with Hc : constr_all _ _ = Ok ?x |- _ => destruct x; apply (constr_all_In _ _ k Hc); apply in_or_app; right; exact Hin end.
+Qed.
+
 (* the 2.0 MarkingDefinition class with `created` at millisecond precision (the model's c_ms) *)
 Definition md_ms (c : cls) : cls :=
   {| cid := cid c; cver := cver c; ctype := ctype c; cfamily := cfamily c;
@@ -127,6 +143,15 @@ Proof.
   induction (cslots c) as [| s r IH]; cbn [map filter]; [reflexivity |].
   destruct (ustr_eqb (sname s) (u "created")); cbn [sreq sdef sname];
     match goal with |- context [if ?b then _ else _] => destruct b end; cbn [map sname]; rewrite IH; reflexivity.
+Qed.
+
+Lemma md_ms_slot_of : forall c n, ustr_eqb n (u "created") = false -> slot_of (md_ms c) n = slot_of c n.
+Proof.
+  intros c n Hn. unfold slot_of, md_ms. cbn [cslots]. induction (cslots c) as [| s r IH]; cbn [map find]; [reflexivity |].
+  destruct (ustr_eqb (sname s) (u "created")) eqn:Ec; cbn [sname].
+  - destruct (ustr_eqb (sname s) n) eqn:En; [| exact IH].
+    apply ustr_eqb_eq in En. apply ustr_eqb_eq in Ec. subst n. rewrite Ec in Hn. rewrite ustr_eqb_refl in Hn. discriminate.
+  - destruct (ustr_eqb (sname s) n); [reflexivity | exact IH].
 Qed.
 
 Definition DEF : ustring := u "definition".
@@ -213,7 +238,24 @@ Section Knot.
     | _ => false
     end.
 
-  Definition init_okw (c : cls) : bool := init_ok vr (cinit c) || md_ok c.
+  (* ---- the 2.1 Indicator __init__: pattern_version defaults to "2.1" for a stix pattern ---- *)
+  Definition PATTERN : ustring := u "pattern".
+  Definition PTYPE : ustring := u "pattern_type".
+  Definition PVERSION : ustring := u "pattern_version".
+
+  Definition is_string_kind (k : pkind) : bool :=
+    match k with KString | KPattern | KOpenVocab _ => true | _ => false end.
+
+  Definition ind_ok (c : cls) : bool :=
+    match cinit c with
+    | IIndicatorPatternVersion =>
+      match slot_of c PTYPE with Some s => is_string_kind (skind s) && is_dnone s | None => false end &&
+      match slot_of c PVERSION with Some s => is_string_kind (skind s) | None => false end &&
+      existsb (fun k => match k with CPatternValidator V21 => true | _ => false end) (ccons c)
+    | _ => false
+    end.
+
+  Definition init_okw (c : cls) : bool := init_ok vr (cinit c) || md_ok c || ind_ok c.
 
   Definition class_okw (c : cls) : bool :=
     nodupb (map sname (cslots c)) && forallb (slot_ok vr nestable) (cslots c) && init_okw c &&
@@ -322,13 +364,21 @@ Section Knot.
     | _, _ => GEN f c allow interop kw [] vrf
     end.
 
+  Definition ind_kw (kw : list (ustring * jvalue)) : list (ustring * jvalue) :=
+    let g (k : string) := alookup (u k) kw in
+    if (match g "pattern"%string with Some v => truthy v | None => false end)
+       && jvalue_eqb (match g "pattern_type"%string with Some v => v | None => JNull end) (JStr (u "stix"))
+       && negb (match g "pattern_version"%string with Some v => truthy v | None => false end)
+    then aset (u "pattern_version") (JStr (u "2.1")) kw else kw.
+
   Definition init_expr (f : nat) (c : cls) (allow interop : bool) (kw : list (ustring * jvalue))
              (vrf : option (list (ustring * ustring))) : result pval :=
     match cinit c with
     | INone | IObservedDataWarn | IBundleObjects => GEN f c allow interop kw [] vrf
     | IPositional names => GEN f c allow interop (pos_filter vr names kw) [] vrf
     | IMarkingDefinition vv => md_expr f c vv allow interop kw vrf
-    | _ => Unmodelled
+    | IIndicatorPatternVersion => GEN f c allow interop (ind_kw kw) [] vrf
+    | IOpaque _ => Unmodelled
     end.
 
   Definition post (c : cls) (kw : list (ustring * jvalue)) (obj : pval) : result pval :=
@@ -354,7 +404,7 @@ Section Knot.
     post c kw obj.
   Proof.
     intros f kid allow interop kw vrefs c Ef Hi. cbn [run]. rewrite Ef.
-    unfold init_okw, md_ok in Hi. unfold init_expr.
+    unfold init_okw, md_ok, ind_ok in Hi. unfold init_expr.
     destruct (cinit c) eqn:Ei; cbn [init_ok orb] in Hi; try discriminate; try reflexivity.
     unfold md_expr, md_cls, md_ms. rewrite Ei. reflexivity.
   Qed.
@@ -664,6 +714,82 @@ Section Knot.
       rewrite (md_reduce c' mcid allow interop vrf (written c Sv) (omem m) m Hms' Hpl W2 E4 E2 E3).
       exact Hre.
     Qed.
+    Lemma string_kind_clean : forall k a i j v h, is_string_kind k = true ->
+      clean_kind vr w rc rp ro k a i j = Ok (v, h) -> exists s0, v = PJ (JStr s0).
+    Proof.
+      intros k a i j v h Hk H. destruct k; try discriminate; cbn [clean_kind] in H; unfold clean_string, bind in H;
+        destruct (py_str j) as [s0 | |]; try discriminate; inversion H; eauto.
+    Qed.
+
+    Lemma ind_idem : forall c allow interop kw vrf obj,
+      ind_ok c = true ->
+      NoDup (map sname (cslots c)) -> forallb (slot_ok vr nestable) (cslots c) = true ->
+      plain_dict kw = true ->
+      GEN f c allow interop (ind_kw kw) [] vrf = Ok obj ->
+      idem_result c kw obj (fun kw' => GEN f c allow interop (ind_kw kw') [] vrf).
+    Proof.
+      intros c allow interop kw vrf obj Hio Hnd Hslots Hp H.
+      unfold ind_ok in Hio. destruct (cinit c); try discriminate.
+      apply andb_true_iff in Hio. destruct Hio as [Hio Hcons]. apply andb_true_iff in Hio. destruct Hio as [Hpt Hpv].
+      destruct (slot_of c PTYPE) as [spt |] eqn:Espt; try discriminate.
+      apply andb_true_iff in Hpt. destruct Hpt as [Hptk Hptd].
+      destruct (slot_of c PVERSION) as [spv |] eqn:Espv; try discriminate.
+      apply existsb_exists in Hcons. destruct Hcons as [k [Hkin Hk]].
+      assert (Ek : k = CPatternValidator V21) by (destruct k; try discriminate; destruct v; try discriminate; reflexivity).
+      subst k.
+      (* the arguments after the rewrite *)
+      assert (Hkw' : ind_kw kw = kw \/ ind_kw kw = aset PVERSION (JStr (u "2.1")) kw).
+      { unfold ind_kw. cbv zeta. match goal with |- context [if ?b then _ else _] => destruct b end; auto. }
+      assert (Hp' : plain_dict (ind_kw kw) = true).
+      { destruct Hkw' as [E | E]; rewrite E; [exact Hp |]. apply plain_dict_aset; [exact Hp |]. reflexivity. }
+      destruct (gen_idem c allow interop (ind_kw kw) vrf obj Hnd Hslots Hp' H) as [Sv [hc [Eo [Hre [Hpl [Hres Hgiv]]]]]].
+      exists Sv, hc. split; [exact Eo |].
+      assert (Hmono : forall n, amem n kw = true -> amem n (ind_kw kw) = true).
+      { intros n Hn. destruct Hkw' as [E | E]; rewrite E; [exact Hn |]. unfold amem in *.
+        destruct (ustr_eqb n PVERSION) eqn:En.
+        - apply ustr_eqb_eq in En. subst n. rewrite alookup_aset_same. reflexivity.
+        - rewrite alookup_aset_other; [exact Hn |]. intros E2. subst. rewrite ustr_eqb_refl in En. discriminate. }
+      assert (Hanti : forall r, In r reserved_names -> amem r kw = false -> amem r (ind_kw kw) = false).
+      { intros r Hr Hn. destruct Hkw' as [E | E]; rewrite E; [exact Hn |]. unfold amem in *.
+        rewrite alookup_aset_other; [exact Hn |]. intros E2. subst r. unfold reserved_names, PVERSION in Hr. cbn [map In] in Hr.
+        repeat (destruct Hr as [Hr | Hr]; [vm_compute in Hr; discriminate |]). contradiction. }
+      split; [| split; [exact Hpl |]; split; [intros r Hr Hn; apply Hres; auto | intros n Hn; apply Hgiv; auto]].
+      (* nothing is rewritten the second time: a stored stix pattern type has passed the validator with its version *)
+      assert (Efix : ind_kw (written c Sv) = written c Sv).
+      { unfold ind_kw. cbv zeta. change (u "pattern_type") with PTYPE. change (u "pattern_version") with PVERSION.
+        destruct (jvalue_eqb (match alookup PTYPE (written c Sv) with Some v => v | None => JNull end) (JStr (u "stix"))) eqn:Eb;
+          [| rewrite andb_false_r; reflexivity].
+        apply jvalue_eqb_eq in Eb.
+        destruct (alookup PTYPE (written c Sv)) as [x |] eqn:Ew; [| discriminate]. subst x.
+        assert (Hst : alookup PTYPE Sv = Some (PJ (JStr (u "stix")))).
+        { rewrite alookup_written in Ew. destruct (alookup PTYPE Sv) as [v0 |] eqn:Ev; try discriminate.
+          destruct (mem_ustr PTYPE (defaulted_names c Sv)); try discriminate. inversion Ew as [Eenc]. clear Ew.
+          subst obj. unfold GEN in H.
+          destruct (alookup PTYPE (ind_kw kw)) as [j |] eqn:Ej.
+          - pose proof (cg_given_value vr ev w pattern_ok selectors_ok rc rp ro c allow interop vrf Hnd (S f) (ind_kw kw) Sv _ hc
+                          PTYPE j Hp' H Ej) as Hg. rewrite Espt in Hg. destruct Hg as [v [h [E1 E2]]].
+            rewrite Ev in E1. inversion E1; subst v.
+            destruct (string_kind_clean _ _ _ _ _ _ Hptk E2) as [s0 Es0]. subst v0. cbn [encode] in Eenc. rewrite Eenc. reflexivity.
+          - exfalso.
+            assert (Hab : amem PTYPE Sv = false).
+            { eapply (cg_absent vr ev w pattern_ok selectors_ok rc rp ro c allow interop vrf Hnd); [exact Hp' | exact H | exact Ej |].
+              intros sl Hsl. rewrite Espt in Hsl. inversion Hsl; subst. unfold is_dnone in Hptd. destruct (sdef sl); try discriminate. reflexivity. }
+            unfold amem in Hab. rewrite Ev in Hab. discriminate. }
+        subst obj. unfold GEN in H.
+        pose proof (cg_constraints _ _ _ _ _ _ _ _ _ _ _ _ _ _ _ _ _ _ _ _ H Hkin) as Hc.
+        cbn [eval_constr] in Hc. unfold pget in Hc. change (u "pattern_type") with PTYPE in Hc. rewrite Hst in Hc.
+        rewrite ustr_eqb_refl in Hc. cbn [negb] in Hc. change (u "pattern_version") with PVERSION in Hc.
+        destruct (alookup (u "pattern") Sv) as [[[| | | | p | |] | | | |] |]; try discriminate.
+        destruct (alookup PVERSION Sv) as [[[| | | | pv | |] | | | |] |] eqn:Epv; try discriminate.
+        assert (Hpvw : alookup PVERSION (written c Sv) = Some (JStr pv)).
+        { rewrite (written_stored vr nestable c Hnd Hslots Sv PVERSION _ Epv); [reflexivity | intros b Hb; discriminate]. }
+        rewrite Hpvw.
+        assert (Hne : pv <> []).
+        { intros E. subst pv. vm_compute in Hc. destruct (pattern_ok V21 p); discriminate. }
+        cbn [truthy]. destruct pv; [contradiction |]. cbn [negb]. rewrite andb_false_r. reflexivity. }
+      cbv beta. rewrite Efix. exact Hre.
+    Qed.
+
     Lemma init_idem : forall c allow interop kw vrf obj,
       class_okw c = true -> plain_dict kw = true ->
       init_expr f c allow interop kw vrf = Ok obj ->
@@ -672,17 +798,95 @@ Section Knot.
       intros c allow interop kw vrf obj Hok Hp H. unfold class_okw in Hok.
       apply andb_true_iff in Hok. destruct Hok as [Hok _]. apply andb_true_iff in Hok. destruct Hok as [Hok Hinit].
       apply andb_true_iff in Hok. destruct Hok as [Hnd Hslots]. apply nodupb_NoDup in Hnd.
-      unfold init_okw, md_ok in Hinit. unfold init_expr in *.
+      unfold init_okw, md_ok, ind_ok in Hinit. unfold init_expr in *.
       destruct (cinit c) as [| names | | | vv | |] eqn:Ei; cbn [init_ok orb] in Hinit; try discriminate.
       - exact (gen_idem c allow interop kw vrf obj Hnd Hslots Hp H).
-      - rewrite orb_false_r in Hinit.
+      - rewrite !orb_false_r in Hinit.
         rewrite (pos_filter_id vr names kw Hinit (plain_members_nonnull kw Hp)) in H.
         destruct (gen_idem c allow interop kw vrf obj Hnd Hslots Hp H) as [Sv [hc [Eo [Hre [Hpl [Hres Hgiv]]]]]].
         exists Sv, hc. split; [exact Eo |]. split; [| auto].
         rewrite (pos_filter_id vr names (written c Sv) Hinit (plain_members_nonnull _ Hpl)). exact Hre.
+      - apply (ind_idem c allow interop kw vrf obj); auto. unfold ind_ok. rewrite Ei. exact Hinit.
       - exact (gen_idem c allow interop kw vrf obj Hnd Hslots Hp H).
-      - apply (md_idem c vv allow interop kw vrf obj Ei); auto. unfold md_ok. rewrite Ei. exact Hinit.
+      - rewrite orb_false_r in Hinit. apply (md_idem c vv allow interop kw vrf obj Ei); auto. unfold md_ok. rewrite Ei. exact Hinit.
       - exact (gen_idem c allow interop kw vrf obj Hnd Hslots Hp H).
+    Qed.
+    (* the generic constructor run a successful __init__ amounts to: its class, recursive constructor and arguments *)
+    Definition effective (c : cls) (allow interop : bool) (kw : list (ustring * jvalue))
+               (vrf : option (list (ustring * ustring))) (obj : pval) : Prop :=
+      exists cE rcE PE kwE,
+        rc_idem rcE PE /\ NoDup (map sname (cslots cE)) /\ forallb (slot_ok vr PE) (cslots cE) = true /\
+        construct_generic vr ev w pattern_ok selectors_ok rcE rp ro (S f) cE allow interop kwE [] vrf = Ok obj /\
+        plain_dict kwE = true /\ (forall n, n <> PVERSION -> alookup n kwE = alookup n kw) /\
+        cid cE = cid c /\ (forall S0, defaulted_names cE S0 = defaulted_names c S0) /\
+        (forall n, n <> DEF -> n <> CREATED -> slot_of cE n = slot_of c n).
+
+    Lemma effective_plain : forall c allow interop kw vrf obj,
+      NoDup (map sname (cslots c)) -> forallb (slot_ok vr nestable) (cslots c) = true -> plain_dict kw = true ->
+      GEN f c allow interop kw [] vrf = Ok obj -> effective c allow interop kw vrf obj.
+    Proof.
+      intros c allow interop kw vrf obj Hnd Hslots Hp H. exists c, rc, nestable, kw.
+      split; [exact (claim_rc f IH) |]. repeat split; auto.
+    Qed.
+
+    Lemma init_eff : forall c allow interop kw vrf obj,
+      class_okw c = true -> plain_dict kw = true ->
+      init_expr f c allow interop kw vrf = Ok obj -> effective c allow interop kw vrf obj.
+    Proof.
+      intros c allow interop kw vrf obj Hok Hp H. unfold class_okw in Hok.
+      apply andb_true_iff in Hok. destruct Hok as [Hok _]. apply andb_true_iff in Hok. destruct Hok as [Hok Hinit].
+      apply andb_true_iff in Hok. destruct Hok as [Hnd Hslots]. apply nodupb_NoDup in Hnd.
+      unfold init_okw, md_ok, ind_ok in Hinit. unfold init_expr in *.
+      destruct (cinit c) as [| names | | | vv | |] eqn:Ei; cbn [init_ok orb] in Hinit; try discriminate.
+      - apply effective_plain; auto.
+      - rewrite !orb_false_r in Hinit. rewrite (pos_filter_id vr names kw Hinit (plain_members_nonnull kw Hp)) in H.
+        apply effective_plain; auto.
+      - (* 2.1 Indicator: the arguments with the defaulted pattern_version *)
+        assert (Hkw' : ind_kw kw = kw \/ ind_kw kw = aset PVERSION (JStr (u "2.1")) kw).
+        { unfold ind_kw. cbv zeta. match goal with |- context [if ?b then _ else _] => destruct b end; auto. }
+        exists c, rc, nestable, (ind_kw kw). split; [exact (claim_rc f IH) |]. repeat split; auto.
+        + destruct Hkw' as [E | E]; rewrite E; [exact Hp |]. apply plain_dict_aset; [exact Hp | reflexivity].
+        + intros n Hn. destruct Hkw' as [E | E]; rewrite E; [reflexivity |]. apply alookup_aset_other. exact Hn.
+      - apply effective_plain; auto.
+      - (* MarkingDefinition *)
+        rewrite orb_false_r in Hinit.
+        apply andb_true_iff in Hinit. destruct Hinit as [Hmd HV]. apply andb_true_iff in Hmd. destruct Hmd as [Hmd Hdt].
+        apply andb_true_iff in Hmd. destruct Hmd as [Hmd Hms]. apply andb_true_iff in Hmd. destruct Hmd as [_ Hmk].
+        unfold md_expr in H. change (u "definition_type") with DEFTYPE in H. change (u "definition") with DEF in H.
+        destruct (alookup DEFTYPE kw) as [dt |] eqn:Edt; [| apply effective_plain; auto].
+        destruct (alookup DEF kw) as [dv |] eqn:Edv; [| apply effective_plain; auto].
+        destruct dt as [| | | | t | |]; try discriminate.
+        destruct (class_for w t vv 3%N) as [mcid |] eqn:Ecf; try discriminate.
+        destruct (md_unmodelled vv t kw) eqn:Eun; try discriminate.
+        destruct dv as [| | | | | | dd]; cbn [get_dict bind] in H; try discriminate.
+        destruct (amem (u "allow_custom") dd || amem (u "interoperability") dd || amem (u "self") dd) eqn:Er3; try discriminate.
+        unfold bind in H.
+        destruct (RUN f (RConstruct mcid false false dd None)) as [m | |] eqn:Em; try discriminate.
+        assert (Hnm : nestable mcid = true).
+        { unfold class_for in Ecf. cbn in Ecf. apply assoc_In in Ecf. rewrite forallb_forall in Hmk. exact (Hmk _ Ecf). }
+        assert (Hms' : md_slots_ok (md_cls vv t c kw) = true).
+        { destruct (md_cls_cases vv t c kw) as [E | [Ev E]]; rewrite E; [exact Hms |]. subst vv.
+          apply andb_true_iff in HV. destruct HV as [HV _]. apply andb_true_iff in HV. destruct HV as [HV _].
+          apply andb_true_iff in HV. destruct HV as [_ HV]. exact HV. }
+        destruct (plain_dict_lookup kw DEF (JObj dd) Hp Edv) as [_ Hpd]. rewrite plain_json_obj in Hpd. fold (plain_dict dd) in Hpd.
+        assert (Hres : reserved_kw dd = Ok tt).
+        { apply orb_false_iff in Er3. destruct Er3 as [Er3 R3]. apply orb_false_iff in Er3. destruct Er3 as [R1 R2].
+          unfold reserved_kw. rewrite R1, R2, R3. reflexivity. }
+        set (c' := md_cls vv t c kw) in *.
+        rewrite (md_reduce c' mcid allow interop vrf kw dd m Hms' Hp Edv Hpd Hres Em) in H.
+        destruct (md_slots_facts c' Hms') as [_ [Hndw [Hslw _]]].
+        exists (wrap_cls DEF c'), (rc2 mcid), P2, kw.
+        split; [exact (rc2_idem mcid Hnm) |]. repeat split; auto.
+        + cbn [cid wrap_cls]. apply md_cls_cid.
+        + intros S0. rewrite wrap_defaulted. apply md_cls_defaulted.
+        + intros n Hn1 Hn2. rewrite wrap_slot_of.
+          assert (Ec' : slot_of c' n = slot_of c n).
+          { unfold c'. destruct (md_cls_cases vv t c kw) as [E | [_ E]]; rewrite E; [reflexivity |].
+            apply md_ms_slot_of. destruct (ustr_eqb n (u "created")) eqn:En; auto. apply ustr_eqb_eq in En. contradiction. }
+          rewrite Ec'. destruct (slot_of c n) as [sl |] eqn:Esl; cbn [option_map]; [| reflexivity].
+          destruct (slot_of_In c n sl Esl) as [_ En]. unfold wrap_slot. rewrite En.
+          destruct (ustr_eqb n DEF) eqn:E2; [apply ustr_eqb_eq in E2; contradiction | reflexivity].
+      - apply effective_plain; auto.
     Qed.
   End Level.
 
@@ -737,6 +941,31 @@ Section Knot.
           destruct (mem_defaulted vr nestable c Hnd Hslots _ _ Ed) as [sl [b [E1 [E2 _]]]].
           rewrite E1 in Hidslot; rewrite E2 in Hidslot; discriminate. }
         rewrite Hidw; reflexivity.
+  Qed.
+  (* a successful constructor run of a covered class, as a generic constructor run *)
+  Lemma run_construct_eff : forall f kid allow interop kw vrefs o,
+    mem_ustr kid ids = true -> plain_dict kw = true -> id_given kid kw = true ->
+    RUN (S f) (RConstruct kid allow interop kw vrefs) = Ok o ->
+    exists c, find_class (wclasses w) kid = Some c /\ class_okw c = true /\
+      effective f c allow interop kw
+        (match cfamily c with FSco => Some match vrefs with Some r => r | None => [] end | _ => None end) o.
+  Proof.
+    intros f kid allow interop kw vrefs o Hm Hp Hid H.
+    destruct (ids_found kid Hm) as [c Ef]. exists c. split; [exact Ef |].
+    pose proof (ids_class_okw kid c Hm Ef) as Hok. split; [exact Hok |].
+    assert (Hiw : init_okw c = true).
+    { unfold class_okw in Hok. apply andb_true_iff in Hok. destruct Hok as [Hok _]. apply andb_true_iff in Hok. tauto. }
+    rewrite (run_unfold f kid allow interop kw vrefs c Ef Hiw) in H.
+    destruct (amem (u "_valid_refs") kw || amem (u "allow_custom") kw || amem (u "interoperability") kw || amem (u "self") kw);
+      try discriminate.
+    unfold bind in H.
+    match type of H with match ?g with _ => _ end = _ => destruct g as [obj | |] eqn:Eg; try discriminate end.
+    assert (Eo : o = obj).
+    { unfold id_given in Hid. rewrite Ef in Hid. unfold is_sco21 in Hid. unfold post in H.
+      destruct obj; try (inv H; reflexivity).
+      destruct (cfamily c); try (inv H; reflexivity). destruct (cver c); try (inv H; reflexivity).
+      cbn [negb orb] in Hid. rewrite Hid in H. inv H. reflexivity. }
+    subst obj. apply (init_eff f (run_construct_idem f) c allow interop kw _ o Hok Hp Eg).
   Qed.
 End Knot.
 
